@@ -311,6 +311,8 @@ def g_call(obj, call):
     args = [g_value(a) for a in call["a"]]
     if m == "value":
         return obj(*args)
+    if m == "or":
+        return obj | args[0]
     return getattr(obj, m)(*args)
 
 
@@ -376,10 +378,62 @@ def len_call(s):
     return None
 
 
-def g_schema(s):
+# Construction routes.  The same declaration can be written in several public ways: a union as
+# schema.any(a, b, c), a | b | c, a | (b | c), schema.any(a, schema.any(b, c)); a dict schema
+# directly, as make_required(<all keys optional>, [required keys]) or as d1 + d2.  With routes
+# enabled every build takes the next route, so whatever a check does with "the schema" it does,
+# over a run, with schemas that arrived through every public entry point.
+ROUTES = {"on": False, "n": 0}
+
+
+def enable_routes(on=True):
+    ROUTES["on"] = on
+    ROUTES["n"] = 0
+
+
+def _build_any(D, alts, r):
+    if len(alts) < 2 or r % 4 == 0:
+        return D.schema.any(*alts)
+    if r % 4 == 1:
+        obj = alts[0]
+        for x in alts[1:]:
+            obj = obj | x
+        return obj
+    if r % 4 == 2:
+        obj = alts[-1]
+        for x in reversed(alts[:-1]):
+            obj = x | obj
+        return obj
+    if len(alts) >= 4:
+        h = len(alts) // 2
+        return _build_any(D, alts[:h], 1) | _build_any(D, alts[h:], 1)
+    return D.schema.any(alts[0], D.schema.any(*alts[1:])) if len(alts) > 2 else D.schema.any(D.schema.any(alts[0]), alts[1])
+
+
+def _build_dict(D, entries, r):
+    """entries: [(key | ..., value schema | ..., optional)]"""
+    def direct(ents, all_optional=False):
+        keys = {}
+        for key, val, opt in ents:
+            keys[key if key is ... else (D.optional(key) if (opt or all_optional) else key)] = val
+        return D.schema.dict(keys)
+    if r % 3 == 1:
+        from d42.utils import make_required
+        required = [key for key, val, opt in entries if key is not ... and not opt]
+        return make_required(direct(entries, all_optional=True), required)
+    if r % 3 == 2 and len(entries) >= 2:
+        h = len(entries) // 2
+        return direct(entries[:h]) + direct(entries[h:])
+    return direct(entries)
+
+
+def g_schema(s, _depth=0):
     """abstract schema -> real schema, through the public DSL only"""
     D = d42()
     t = s["t"]
+    if ROUTES["on"] and _depth == 0:
+        ROUTES["n"] += 1
+    route = (ROUTES["n"] + _depth) if ROUTES["on"] else 0
     if t in ("none",):
         return D.schema.none
     if t in ("bool", "bytes", "uuid4", "datetime", "date", "int", "float"):
@@ -405,9 +459,9 @@ def g_schema(s):
     if t == "list":
         obj = D.schema.list
         if s["type"]:
-            obj = obj(g_schema(s["type"][0]))
+            obj = obj(g_schema(s["type"][0], _depth + 1))
         elif s["elems"]:
-            obj = obj([... if _is_ell(e) else g_schema(e) for e in s["elems"][0]])
+            obj = obj([... if _is_ell(e) else g_schema(e, _depth + 1) for e in s["elems"][0]])
         lc = len_call(s)
         if lc:
             obj = g_call(obj, lc)
@@ -415,28 +469,32 @@ def g_schema(s):
     if t == "dict":
         obj = D.schema.dict
         if s["keys"]:
-            keys = {}
+            entries = []
             for e in s["keys"][0]:
                 if _is_ell(e["key"]):
-                    keys[...] = ...
+                    entries.append((..., ..., False))
                 else:
-                    key = g_value(e["key"])
-                    keys[D.optional(key) if e["opt"] else key] = g_schema(e["val"])
-            obj = obj(keys)
+                    entries.append((g_value(e["key"]), g_schema(e["val"], _depth + 1), e["opt"]))
+            try:
+                hashes = [hash(k) for k, _, _ in entries]
+                distinct = len({k for k, _, _ in entries}) == len(entries)
+            except TypeError:
+                distinct = False
+            obj = _build_dict(D, entries, route if distinct else 0)
         return obj
     if t == "any":
         obj = D.schema.any
         if s["types"]:
-            alts = [g_schema(x) for x in s["types"][0]]
+            alts = [g_schema(x, _depth + 1) for x in s["types"][0]]
             if not alts:
                 raise Unrepresentable("any with no alternatives is not declarable")
-            obj = obj(*alts)
+            obj = _build_any(D, alts, route)
         return obj
     if t == "alias":
-        return D.schema.alias(s["name"], g_schema(s["type"]))
+        return D.schema.alias(s["name"], g_schema(s["type"], _depth + 1))
     if t == "custom":
         from . import customtype
-        return customtype.wrap(g_schema(s["inner"]))
+        return customtype.wrap(g_schema(s["inner"], _depth + 1))
     raise Unrepresentable("schema type %r" % (t,))
 
 
